@@ -9,7 +9,7 @@ NA["C15"] = "linearizability quantifies over concurrent histories and their real
 
 claim("C02", "other",
       "path-count/dominance rules on SSA CFGs, dispatch simulation of type switches, value provenance closed over call sites, who-may-call/who-may-write",
-      "Decides necessary structural conditions for every CFG path and every request type makePacket can build: exhaustive dispatch, exactly one readyPacket per dispatched request, no received request skipped, response id and order id are the request's own, order counter/sort/head-match/single-sender discipline, reply types legal per request type, no response abandoned at shutdown (two known findings). It decides the mechanism's shape; it does not execute interleavings. Also: every lock taken on the request path is released on every path to a return (a leaked handle-table lock answers the current request and wedges all later ones).",
+      "Decides necessary structural conditions for every CFG path and every request type makePacket can build: exhaustive dispatch, exactly one readyPacket per dispatched request, no received request skipped, response id and order id are the request's own, order counter/sort/head-match/single-sender discipline, reply types legal per request type, no response abandoned at shutdown (two known findings). It decides the mechanism's shape; it does not execute interleavings. Also: every lock taken on the request path is released on every path to a return (a leaked handle-table lock answers the current request and wedges all later ones). A handle request is answered by the handler its own type names (packet type x open method table), the popped queue element is the head, and order ids are the successive values of the counter. Assumes fewer than 2^32 requests per connection (the 32-bit order id wraps).",
       "Assumes handlers return and the transport preserves byte order; call resolution by static callees and VTA; oracle table of legal reply types from draft-ietf-secsh-filexfer-02 and OpenSSH PROTOCOL.",
       "DESIGN.md section 4, C02")
 
@@ -21,18 +21,18 @@ claim("C09", "proof",
 
 claim("C11", "other",
       "locksets, who-may-call/who-may-write, dominance of lookup results, ownership (must-consume) path rule on SSA",
-      "Decides, for every path of the handle-table code of both servers: counter increments only under the lock and handles derive from it; tables accessed only under their lock; lookup results used only under ok with EBADF on the miss path; the closed set of close sites with delete-then-close on one locked path; failed opens release their handle; every object obtained from a handler or from openfile is stored in a handle or closed on every non-error path; transfer-error/context-cancel wiring; sweeps after the worker join on every return path. Necessary structural conditions, not an execution. Also: an object stored into a Request is owned only if that Request is in the handle table or closed by its creator on every path (resolved over all call sites).",
+      "Decides, for every path of the handle-table code of both servers: counter increments only under the lock and handles derive from it; tables accessed only under their lock; lookup results used only under ok with EBADF on the miss path; the closed set of close sites with delete-then-close on one locked path; failed opens release their handle; every object obtained from a handler or from openfile is stored in a handle or closed on every non-error path; transfer-error/context-cancel wiring; sweeps after the worker join on every return path. Necessary structural conditions, not an execution. Also: an object stored into a Request is owned only if that Request is in the handle table or closed by its creator on every path (resolved over all call sites). Also: a CLOSE is a barrier for the requests that follow it, and the request context ends before Serve joins its workers.",
       "Assumes handler objects do not close themselves and package os releases descriptors on Close; lock idiom is Lock/RLock + deferred unlock (the only idiom in the repository).",
       "DESIGN.md section 4, C11")
 
 claim("C03", "other",
       "value provenance of request ids (fresh per loop iteration), locksets, dominance rules on dispatchRequest/recv, who-may-call",
-      "Decides the routing mechanism's necessary conditions on every path: ids drawn from the atomic counter in the same iteration and used once; one locked writer per connection; register-before-send with the packet's own id; in-flight table only under its mutex; recv routes by the id decoded from the received packet and removes the entry; one pooled result channel per in-flight request, returned only after its result was consumed. Also: an in-flight entry is removed only by the receiver (for the reply) or by dispatchRequest (failed write); no other caller of getChannel and no other delete.",
+      "Decides the routing mechanism's necessary conditions on every path: ids drawn from the atomic counter in the same iteration and used once; one locked writer per connection; register-before-send with the packet's own id; in-flight table only under its mutex; recv routes by the id decoded from the received packet and removes the entry; one pooled result channel per in-flight request, returned only after its result was consumed. Also: an in-flight entry is removed only by the receiver (for the reply) or by dispatchRequest (failed write); no other caller of getChannel and no other delete. Assumes fewer than 2^32 requests are issued while one request stays outstanding (the 32-bit request id wraps).",
       "Assumes peers answer with outstanding ids; lock idiom Lock + deferred Unlock; callers enumerated statically (functions used as values are reported).",
       "DESIGN.md section 4, C03")
 claim("C04", "other",
       "channel-protocol and shutdown-shape rules on SSA (select/send/close/range structure, path counts, locksets, who-may-call)",
-      "Decides the shape of the shutdown protocol that is necessary for 'every call fails, none hangs': broadcast on every receiver exit, exactly-once notification and latch under the mutex, refusal after close, send errors delivered through the table, buffered result channels, writer closed and receiver joined, and in the four concurrent transfers cancellable or drained sends, closed work channels, workers that never leave their loop, single close of cancel. Bounded-time liveness itself is not claimed. Also: every client-side Lock/RLock is released on every return path; the broadcast sweep replaces each notified entry with a fresh buffered channel (or deletes it).",
+      "Decides the shape of the shutdown protocol that is necessary for 'every call fails, none hangs': broadcast on every receiver exit, exactly-once notification and latch under the mutex, refusal after close, send errors delivered through the table, buffered result channels, writer closed and receiver joined, and in the four concurrent transfers cancellable or drained sends, closed work channels, workers that never leave their loop, single close of cancel. Bounded-time liveness itself is not claimed. Also: every client-side Lock/RLock is released on every return path; the broadcast sweep replaces each notified entry with a fresh buffered channel (or deletes it). The loss must reach waiters without the write mutex (known finding F33).",
       "Assumes closing the writer unblocks the reader's Read and the optional ssh Wait hook returns.",
       "DESIGN.md section 4, C04")
 
@@ -49,42 +49,42 @@ claim("C12", "other",
       "DESIGN.md section 4, C12")
 claim("C13", "other",
       "structural rules on the reducers/workers/sequential loops of client.go (guards, return terms via affine comparison, channel-send shape)",
-      "Decides the necessary conditions of prefix accounting on partial failure: lowest-offset reduction from MaxInt64, count = first.off - off with first.err, unconditional error delivery to the drained channel, read-worker error offset = chunk offset + bytes copied with short DATA => io.EOF, sequential loops stop at the first error, WriteTo reducer order/stop/EOF mapping, nil error only with the full length, ReadFrom returns bytes consumed.",
+      "Decides the necessary conditions of prefix accounting on partial failure: lowest-offset reduction from MaxInt64, count = first.off - off with first.err, unconditional error delivery to the drained channel, read-worker error offset = chunk offset + bytes copied with short DATA => io.EOF, sequential loops stop at the first error, WriteTo reducer order/stop/EOF mapping, nil error only with the full length, ReadFrom returns bytes consumed. Also: a chunk's own error is examined on every path to the next chunk or to a nil result (not only a variable that merges it with the source's read error).",
       "Assumes regular files return short reads only at end of file (stated in client.go).",
       "DESIGN.md section 4, C13")
 
 claim("C16", "other",
       "per-iteration path counts and value provenance on SSA (cursor read/advance, batch slice, status truth table, entry decode completeness)",
-      "Decides the listing cursor discipline of both servers and the client loop on every path: ListAt at the cursor with a MaxFilelist buffer, cursor advanced exactly once by ListAt's own count, reply = finfo[:n], STATUS iff err != nil && (err != EOF || n == 0) (truth table over 6 cases), READDIR handled sequentially, one entry per dirent, client decodes every entry completely, skips exactly '.'/'..', continues after NAME, ends on STATUS/send error, EOF => success. Also: an entry's attribute block is framed by its flags word alone; the os server's Readdir batch size is a small positive constant.",
+      "Decides the listing cursor discipline of both servers and the client loop on every path: ListAt at the cursor with a MaxFilelist buffer, cursor advanced exactly once by ListAt's own count, reply = finfo[:n], STATUS iff err != nil && (err != EOF || n == 0) (truth table over 6 cases), READDIR handled sequentially, one entry per dirent, client decodes every entry completely, skips exactly '.'/'..', continues after NAME, ends on STATUS/send error, EOF => success. Also: an entry's attribute block is framed by its flags word alone; the os server's Readdir batch size is a small positive constant. The request server's batches are not bounded in bytes (known finding F36).",
       "Assumes listers honour the ListerAt contract and the directory is not modified during the listing.",
       "DESIGN.md section 4, C16")
 claim("C18", "other",
       "ownership/tagging rules: affine comparison of order-id terms, provenance of page tags closed over call sites, dominance (release after send), locksets, who-may-call",
-      "Decides the allocator's ownership discipline that is necessary for invisibility: receive page tagged with the id the packet will get, READ page tagged with the request's own order id at all sites, one shared allocator, release only after the matching send under the head's order id, allocator state under its mutex, lent page leaves the free list and enters the used table, Free only in Serve's deferred function, page slices bounded by the page length. Byte-identity of response streams is not decided. Also: no decoder of package sftp reslices a byte slice beyond its length (a page is 256 KiB whatever the frame length).",
+      "Decides the allocator's ownership discipline that is necessary for invisibility: receive page tagged with the id the packet will get, READ page tagged with the request's own order id at all sites, one shared allocator, release only after the matching send under the head's order id, allocator state under its mutex, lent page leaves the free list and enters the used table, Free only in Serve's deferred function, page slices bounded by the page length. Byte-identity of response streams is not decided. Also: no decoder of package sftp reslices a byte slice beyond its length (a page is 256 KiB whatever the frame length). Also: the READ buffer has the same length with and without the allocator, and a Request that stays in the handle table keeps no slice of the receive page.",
       "Assumes every request is answered (C02) so that every page is eventually released.",
       "DESIGN.md section 4, C18")
 
 claim("C19", "other",
       "dominance rules on the handshake, who-may-write on the extension tables, provenance of the new extension list (freshness/aliasing), table extraction of advertised vs decoded names",
-      "Decides the structural conditions of truthful negotiation on every path: Client only after type==VERSION and version==3 on checked decodes with the writer closed on failure; ext written only from the VERSION packet; fsync only when advertised; INIT answered with version 3 and the configured list; all-or-nothing replacement of the list from a fresh slice of validated elements; advertised ⊆ decoded names, client encoder names ⊆ decoded names; unknown extended requests keep the session and get op-unsupported in both servers. Also: an extended request with an unknown name is classified read-only, so the read-only gate does not pre-empt the op-unsupported reply.",
+      "Decides the structural conditions of truthful negotiation on every path: Client only after type==VERSION and version==3 on checked decodes with the writer closed on failure; ext written only from the VERSION packet; fsync only when advertised; INIT answered with version 3 and the configured list; all-or-nothing replacement of the list from a fresh slice of validated elements; advertised ⊆ decoded names, client encoder names ⊆ decoded names; unknown extended requests keep the session and get op-unsupported in both servers. Also: an extended request with an unknown name is classified read-only, so the read-only gate does not pre-empt the op-unsupported reply. Also: the extended-request decoder serves only names in the configured (advertised) list.",
       "Third-party peers are out of scope; extension data strings beyond table equality are not decided.",
       "DESIGN.md section 4, C19")
 
 claim("C05", "other",
       "table extraction (request type -> package-os call with argument provenance; open-flag tables both directions; error-translation decision lists) evaluated exhaustively over finite oracle tables",
-      "Decides the adapter wiring that is necessary for os-like behaviour: per request type the exact set of file-system calls with each path passed through toLocalPath once (symlink target verbatim: known finding F11), client/server open-flag tables composing to the identity for all 48 os flag combinations, error categories preserved for 44 standard error shapes (bare and in os's own wrappers), toLocalPath joining only relative paths. Of the client composites it decides two clauses: Glob threads its accumulated matches through the loop, and MkdirAll reports errors from the same sources as the toolchain's os.MkdirAll (both analysed with one provenance function). It decides the mapping, not sequences over file-system states; RemoveAll, Walk and the Remove fallback are not decided.",
+      "Decides the adapter wiring that is necessary for os-like behaviour: per request type the exact set of file-system calls with each path passed through toLocalPath once (symlink target verbatim: known finding F11), client/server open-flag tables composing to the identity for all 48 os flag combinations, error categories preserved for 44 standard error shapes (bare and in os's own wrappers), toLocalPath joining only relative paths. Of the client composites it decides two clauses: Glob threads its accumulated matches through the loop, and MkdirAll reports errors from the same sources as the toolchain's os.MkdirAll (both analysed with one provenance function). It decides the mapping, not sequences over file-system states; RemoveAll, Walk and the Remove fallback are not decided. Also decided for the client: each name-space method sends its namesake request with its arguments in the right fields; Remove's choice between its two errors; RemoveAll's walk (Lstat probe, child paths, every error returned); Glob validates first and returns literal names verbatim; ReadDir sorts; a file created without a permissions attribute gets 0666. toLocalPath's lexical cleaning is a known finding (F28).",
       "Axioms for os.IsNotExist/os.IsPermission/errors.Is/errors.As on the listed shapes; oracle tables in DESIGN.md Appendix A.",
       "DESIGN.md section 4, C05")
 
 claim("C10", "other",
       "table extraction (type->Method->wrapper->handler method) against the documented API, value provenance of every path stored in a Request (cleanPathWithBase closure), field-to-field provenance, per-path invocation counts, error-shape evaluation",
-      "Decides the adapter's tables and provenance on every path: method strings per request type, routing of each method to its wrapper and handler interface methods, all handler-visible paths produced by cleanPathWithBase from a cleaned start directory (two documented verbatim exceptions), flags/attrs copied from the right packet fields, at most one handler invocation per request, error categories and SFTP codes preserved for the standard error shapes. The attribute flags word of OPEN is not conveyed to handlers (known finding F14).",
+      "Decides the adapter's tables and provenance on every path: method strings per request type, routing of each method to its wrapper and handler interface methods, all handler-visible paths produced by cleanPathWithBase from a cleaned start directory (two documented verbatim exceptions), flags/attrs copied from the right packet fields, at most one handler invocation per request, error categories and SFTP codes preserved for the standard error shapes. The attribute flags word of OPEN is not conveyed to handlers (known finding F14). Also: for every packet type x open method the handler I/O reached is the request's own (or the combination is refused), MKDIR's flags and attribute bytes reach the handler, and EOF is recognised with errors.Is wherever it decides about data.",
       "Trusted: path.Clean/Join semantics; oracle tables from request-interfaces.go / request-readme.md (DESIGN.md Appendix A.6).",
       "DESIGN.md section 4, C10")
 
 claim("C17", "other",
       "table extraction from type-checked syntax with constant folding (mode tables, flag->call tables), exhaustive comparison with the POSIX/os oracle and mutual-inverse check, value provenance of reported attributes",
-      "Decides, exhaustively over the extracted tables, that toFileMode/fromFileMode are the POSIX<->os mapping and mutually inverse on all seven type constants, the three special bits and the permission mask; that reported attributes come from the FileInfo's own Size/Mode/ModTime/owner; that both set-attribute handlers apply exactly the four flag->call pairs with the right arguments and agree; that client setters pair flag and payload in wire order; that the long name is built from the same entry. Also: long-name special-bit letters (s/S, t/T, each tested at its own position) and permission letters follow the mode bits.",
+      "Decides, exhaustively over the extracted tables, that toFileMode/fromFileMode are the POSIX<->os mapping and mutually inverse on all seven type constants, the three special bits and the permission mask; that reported attributes come from the FileInfo's own Size/Mode/ModTime/owner; that both set-attribute handlers apply exactly the four flag->call pairs with the right arguments and agree; that client setters pair flag and payload in wire order; that the long name is built from the same entry. Also: long-name special-bit letters (s/S, t/T, each tested at its own position) and permission letters follow the mode bits. Also: long name and attributes take the owner from the same Sys() types with the same precedence. FSETSTAT times by name and chmod-before-chown are known findings (F37, F38).",
       "What the host file system reports is out of scope; oracle: POSIX S_IF* and os.Mode* (DESIGN.md Appendix A.4).",
       "DESIGN.md section 4, C17")
 
@@ -96,17 +96,17 @@ claim("C06", "other",
 
 claim("C08", "proof",
       "bounds prover over SSA: linear integer facts from dominating guards, slice/make/copy/io definitions, field memory with the Buffer invariant, inferred callee requires/ensures, decided by Fourier–Motzkin refutation (zone/affine abstract interpretation, no execution)",
-      "Every index, slice, make, non-comma-ok assertion, explicit panic, division and length-contract call in the decode cone of both codecs (about 150 functions) is an obligation; all are discharged on amd64 (quick) and additionally on 386 (thorough). Allocation sizes are proved bounded by a constant or by the input length; the 256 KiB and zero-length limits are proved to hold at the body allocation and read on every path; a failed body read never returns a nil error. Discharging all obligations is sufficient for 'total and bounded' modulo the trusted base. Also: reply-sized allocations in the client's inline name-list decoders.",
+      "Every index, slice, make, non-comma-ok assertion, explicit panic, division and length-contract call in the decode cone of both codecs (about 150 functions) is an obligation; all are discharged on amd64 (quick) and additionally on 386 (thorough). Allocation sizes are proved bounded by a constant or by the input length; the 256 KiB and zero-length limits are proved to hold at the body allocation and read on every path; a failed body read never returns a nil error. Discharging all obligations is sufficient for 'total and bounded' modulo the trusted base. Also: reply-sized allocations in the client's inline name-list decoders. Also: every filexfer decoder ends with the Buffer's sticky error.",
       "Trusted: Go slice/copy/io.ReadFull semantics, prover soundness, slice lengths < 2^31, non-nil receivers, no recursion in the cone, encoding/binary for StatVFS.",
       "DESIGN.md section 4, C08")
 claim("C20", "other",
       "the C08 bounds prover applied to reply-derived data in every Client/File method and background goroutine, plus the decoders they call; axiom 'delivered payload >= 4 bytes' proved where results are built; structural default-arm and no-panic rules",
-      "Decides that no index/slice/make on data derived from a server reply can panic in the client (callers and background goroutines), that allocations in the reply decoders are bounded by the input, that every reply-type switch ends in an error and that decoders only return errors. Level 'other': it covers panics and allocation bounds of decoding, not the claim that the Client stays usable afterwards. Also: the sweep that fails outstanding calls when the receiver gives up cannot block a request whose write fails afterwards (fresh replacement channel per entry).",
+      "Decides that no index/slice/make on data derived from a server reply can panic in the client (callers and background goroutines), that allocations in the reply decoders are bounded by the input, that every reply-type switch ends in an error and that decoders only return errors. Level 'other': it covers panics and allocation bounds of decoding, not the claim that the Client stays usable afterwards. Also: the sweep that fails outstanding calls when the receiver gives up cannot block a request whose write fails afterwards (fresh replacement channel per entry). Also: a STATUS in reply to a request that returns data never yields a nil error.",
       "Trusted base as C08; binary.Read for StatVFS.",
       "DESIGN.md section 4, C20")
 
 claim("C07", "other",
       "path rules on the receive loops and shutdown sequence (reachability avoiding barriers, dominance), who-may-call, and the bounds prover on request-derived data in the handling cones",
-      "Decides for both servers, on every path: a packet that failed to decode (or a nil packet) is never dispatched, the connection is closed and the error reported; the shutdown sequence close → join → sweep runs on every exit, the dispatcher closes both worker channels, responses are queued before the barrier counter is released; no panic-capable instruction on request-derived data in the handling cones is left undischarged (attribute-blob assertions, allocator page slicing, packet-manager queues); the decoders of OPEN, MKDIR, SETSTAT and FSETSTAT return nil only after the attribute block announced by the flags word was decoded successfully (so no handler or os call ever sees a truncated block); Serve's join points hold no lock that a worker needs.",
+      "Decides for both servers, on every path: a packet that failed to decode (or a nil packet) is never dispatched, the connection is closed and the error reported; the shutdown sequence close → join → sweep runs on every exit, the dispatcher closes both worker channels, responses are queued before the barrier counter is released; no panic-capable instruction on request-derived data in the handling cones is left undischarged (attribute-blob assertions, allocator page slicing, packet-manager queues); the decoders of OPEN, MKDIR, SETSTAT and FSETSTAT return nil only after the attribute block announced by the flags word was decoded successfully (so no handler or os call ever sees a truncated block); Serve's join points hold no lock that a worker needs. Also: Serve's join holds no lock a worker needs and the session context is cancelled before the join; FSTAT/FSETSTAT/CLOSE are ordered with the reads and writes of their handle; the in-package backend checks wire offsets and sizes.",
       "Assumes user handlers do not panic and honour the io.ReaderAt/WriterAt count contract; maxTxPacket < 2^31. 'Emitted responses are a prefix of the correct ones' is not decided.",
       "DESIGN.md section 4, C07")
